@@ -360,4 +360,11 @@ theorem lindiv31abs_spec (P : X86Params) (hP : IsLvl P) (a b f g : Nat)
     refine ⟨c1, ?_⟩
     rw [if_neg (by rw [c1]; decide)]; exact c2
 
+
+/-! ### non-vacuity -/
+/-- a negative coefficient (`f = −3` as uint64_t) and a positive one -/
+example : abs64 (2 ^ 64 - 3) ≤ 2 ^ 31 ∧ sgnw (2 ^ 64 - 3) = 2 ^ 64 - 1 ∧
+    lindiv31abs x1 (2 ^ 40) (2 ^ 31) (2 ^ 64 - 3) 5 = ((3 * 2 ^ 40 - 5 * 2 ^ 31) / 2 ^ 31, 2 ^ 64 - 1) := by decide
+example : lin x1 7 9 (2 ^ 64 - 3) 5 % x1.q = (x1.q - 21 + 45) % x1.q := by decide
+
 end SqiProofs.GfX86
